@@ -88,10 +88,10 @@ Definition judge (c : case) : verdict :=
   match c with
   | CRead key hostname table origin must_reject obs =>
     let open := open_tab key table in
-    if is_panic obs then
-      (if trigger_bad_iv hostname && beq_read (impl_read_hostname open key hostname) Panic then VKnown 1 else VViolation)
+    (* a panic falsifies the property; finding C39-1 is fixed, so a recurrence is a violation like any other *)
+    if is_panic obs then VViolation
     else if holds_read open hostname origin must_reject obs then
-      (if beq_read obs (spec_read_hostname open key hostname) then VOk else VMismatch)
+      (if beq_read obs (impl_read_hostname open key hostname) then VOk else VMismatch)
     else VViolation
   | CWrite key original d iv stab otab ref_fields obs =>
     let mdl := write_hostname (seal_tab key stab) key iv original d in
